@@ -30,7 +30,9 @@ MANIFEST = dict(
          "_after_stop, _count; proof by an inductive mutual-exclusion invariant); the pinned protocol is refuted by "
          "witness runs (two children alive, orphan survives stop(), child alive when stop() returns), and a watcher that "
          "does not read its stop flag again after poll() is refuted (two restarts for one trigger); the watcher's poll(), "
-         "wait and flag re-check are separate model steps and poll() is a scheduling point of the harness. The models are tied "
+         "wait and flag re-check are separate model steps and poll() is a scheduling point of the harness; the debouncer "
+         "runs also schedule right after every lock release (a callback made outside the lock is overtaken by complete "
+         "calls of other threads) and order the public history by scheduling steps. The models are tied "
          "to /repo by replaying, in the extracted debouncer model, the scheduler trace of every real run lock-step, and by "
          "outcome-level comparisons for the restart (non-overlapping operation sequences) and shell (paced runs) models; "
          "the property text is evaluated as an oracle on the public history / process-table log of every run.",
@@ -66,6 +68,26 @@ T0 = 1000.0
 
 def units(t: float) -> int:
     return int(round((t - T0) / UNIT))
+
+
+def deep(ctx) -> bool:
+    """Exhaustive (bounded-pre-emption) blocks: the thorough tier only."""
+    return ctx.tier == "thorough"
+
+
+def size(ctx, quick, thorough, search=None):
+    """Sample sizes.  The failure search of a quick run (ctx.search: model and code disagreed, or the proof broke, and the
+    first pass had no oracle failure) draws a fresh sample of about twice the quick size from a different random
+    stream and explores the fixed programs one pre-emption deeper - not the whole thorough tier."""
+    if ctx.tier == "thorough":
+        return thorough
+    if ctx.search:
+        return 2 * quick if search is None else search
+    return quick
+
+
+def stream(ctx, tag):
+    return ctx.rng(tag + ("/search" if ctx.search else ""))
 
 
 def new_sched(chooser, max_steps=4000):
@@ -156,7 +178,14 @@ def deb_run(case, chooser):
 
     for i, prog in enumerate(case["clients"]):
         s.spawn(f"c{i}", client(prog))
-    s.run()
+    # also schedule right after every lock release: whatever a thread does between leaving a critical section and its
+    # next synchronisation operation (a callback made outside the lock, say) can be overtaken by complete calls of others
+    saved_yar = ds.YIELD_AFTER_RELEASE
+    ds.YIELD_AFTER_RELEASE = True
+    try:
+        s.run()
+    finally:
+        ds.YIELD_AFTER_RELEASE = saved_yar
     t = deb_ts()
     info = {"deb": t.name if t else None,
             "deb_alive": bool(t and t.name in s.alive_after),
@@ -165,13 +194,31 @@ def deb_run(case, chooser):
     return s, info
 
 
+def log_step(ev):
+    """Index in s.trace of the scheduling step during which the entry was logged."""
+    return ev[-1] - 1
+
+
+def section_step(s, ev):
+    """The step in which the critical section of a handle_event()/stop() call ran.  The entry is logged after the call
+    returned; with the scheduling point after the lock release that is one step of the same thread later."""
+    k = log_step(ev)
+    if 0 <= k < len(s.trace) and s.trace[k] == (ev[0], "RLock.released"):
+        for j in range(k - 1, -1, -1):
+            if s.trace[j][0] == ev[0]:
+                return j
+    return k
+
+
 def deb_model_items(s, info):
     """Map the scheduler trace to model items (see ocaml/m_debouncer.ml)."""
     deb = info["deb"]
     by_step: dict[int, list] = {}
     for ev in s.events:
-        if ev[1] in ("H", "S", "CB"):
-            by_step.setdefault(ev[-1] - 1, []).append(ev)
+        if ev[1] in ("H", "S"):
+            by_step.setdefault(section_step(s, ev), []).append(ev)
+        elif ev[1] == "CB":
+            by_step.setdefault(log_step(ev), []).append(ev)
     deb_idx = [k for k, (n, _) in enumerate(s.trace) if n == deb]
     nxt = {}
     for a, b in zip(deb_idx, deb_idx[1:]):
@@ -199,33 +246,37 @@ def deb_model_items(s, info):
                 items.append(Atom("S"))
             elif ev[1] == "CB":
                 items.append(Atom("C"))
-        if name == deb and nxt.get(k) in ("Condition.wait", "<done>") and label != "start":
+        if name == deb and nxt.get(k) in ("Condition.wait", "RLock.released", "<done>") and label != "start":
             items.append(Atom("L"))
     return items
 
 
 def deb_history(s):
-    """Public history: what the clients called and what the callback got."""
-    h = {"handed": [], "called": [], "batches": [], "stop_call": None, "stop_ret": None, "joined": False,
-         "started": False, "rest": []}
-    for i, ev in enumerate(s.events):
+    """Public history: what the clients called and what the callback got.  Order = order of scheduling steps:
+    a handle_event()/stop() takes effect in the step of its critical section, stop() has RETURNED in the step of its
+    "S" entry, a callback is made in the step of its "CB" entry."""
+    h = {"handed": [], "called": [], "batches": [], "stop_call": None, "stop_ret": None, "stop_section": None,
+         "joined": False, "started": False, "rest": []}
+    for ev in s.events:
         k = ev[1]
         if k == "H-call":
-            h["called"].append((ev[2], i))
+            h["called"].append((ev[2], log_step(ev)))
         elif k == "H":
-            h["handed"].append((ev[2], units(ev[3]), i))
+            h["handed"].append((ev[2], units(ev[3]), section_step(s, ev)))
         elif k == "CB":
-            h["batches"].append((list(ev[2]), units(ev[3]), i))
+            h["batches"].append((list(ev[2]), units(ev[3]), log_step(ev)))
         elif k == "S-call" and h["stop_call"] is None:
-            h["stop_call"] = i
+            h["stop_call"] = log_step(ev)
         elif k == "S" and h["stop_ret"] is None:
-            h["stop_ret"] = i
+            h["stop_ret"] = log_step(ev)
+            h["stop_section"] = section_step(s, ev)
         elif k == "J":
             h["joined"] = True
         elif k == "started":
             h["started"] = True
         elif k == "rest":
             h["rest"].append(ev[2])
+    h["handed"].sort(key=lambda x: x[2])
     return h
 
 
@@ -253,7 +304,10 @@ def deb_oracle(case, s, info):
     if h["stop_ret"] is not None:
         late = [b for b, _, i in h["batches"] if i > h["stop_ret"]]
         if late:
-            bad.append(("a batch is delivered after stop() returned", late, "no callback after stop()"))
+            bad.append(("a batch is delivered after stop() returned",
+                        {"batches": late, "stop_returned_at_step": h["stop_ret"],
+                         "callback_steps": [i for _, _, i in h["batches"] if i > h["stop_ret"]]},
+                        "no callback after stop()"))
     # quiet interval
     if interval:
         for b, t, i in h["batches"]:
@@ -376,13 +430,17 @@ DEB_FIXED = [
     {"kind": "deb", "interval": 2, "clients": [[["start"], ["ev", 1], ["sleep", 1], ["ev", 2], ["sleep", 2], ["ev", 3]]]},
     {"kind": "deb", "interval": 2, "clients": [[["start"], ["ev", 1], ["sleep", 3], ["stop"], ["join"]], [["ev", 2], ["sleep", 2], ["ev", 3]]]},
     {"kind": "deb", "interval": 1, "clients": [[["start"], ["sleep", 1], ["stop"]], [["ev", 1], ["sleep", 1], ["ev", 2]]]},
+    # stop() from another thread while a batch is in flight: interval 0 (delivery at once) and stop() arriving at the very
+    # instant the debounce interval expires - nothing may be delivered after stop() has returned
+    {"kind": "deb", "interval": 0, "clients": [[["start"], ["ev", 1], ["ev", 2]], [["ev", 3], ["stop"]]]},
+    {"kind": "deb", "interval": 2, "clients": [[["start"], ["ev", 1], ["sleep", 1], ["ev", 2]], [["sleep", 3], ["stop"]]]},
 ]
 
 
 def run_debouncer(ctx, res: Result):
     from harness import detsched as ds
     batch = DebBatch(res)
-    rng = ctx.rng("deb")
+    rng = stream(ctx, "deb")
     fixed = [c for c in ctx.corpus() if c.get("kind") == "deb"] + DEB_FIXED
     # corpus / fixed programs: replayed schedule if given, a few random ones, and a bounded exhaustive exploration
     for case in fixed:
@@ -390,11 +448,11 @@ def run_debouncer(ctx, res: Result):
         if case.get("choices"):
             s, info = deb_run(base, ds.ReplayChooser(case["choices"]))
             batch.add(base, s, info)
-        bound, cap = (2, 1500) if ctx.thorough else (1, 60)
+        bound, cap = (2, 1500) if deep(ctx) else (2, 400) if ctx.search else (1, 60)
         for s in ds.explore(lambda ch: _deb_explore(base, ch), preemption_bound=bound, max_runs=cap):
             batch.add(base, s, s._c18_info)
         batch.flush()
-    n_prog = 1500 if ctx.thorough else 600
+    n_prog = size(ctx, 600, 1500)
     for i in range(n_prog):
         interval = rng.choice([0, 0, 1, 2, 2, 3])
         case = {"kind": "deb", "interval": interval, "clients": deb_program(rng, interval, rng.choice([1, 2, 2, 3]))}
@@ -404,7 +462,7 @@ def run_debouncer(ctx, res: Result):
         if i % 100 == 99:
             batch.flush()
     batch.flush()
-    if ctx.thorough:
+    if deep(ctx):
         # exhaustive (<= 2 pre-emptions) exploration of small random programs
         for i in range(40):
             interval = rng.choice([0, 2])
@@ -644,9 +702,9 @@ def rs_sequential(ctx, res):
     from harness import procsim
     from watchdog.events import FileModifiedEvent
     import watchdog.tricks as tricks
-    rng = ctx.rng("rs-seq")
+    rng = stream(ctx, "rs-seq")
     cases, impls, metas = [], [], []
-    for i in range(120 if ctx.thorough else 30):
+    for i in range(size(ctx, 30, 120)):
         roe = rng.random() < 0.6
         ops = [rng.choice(["ev", "ev", "selfexit", "ev"]) for _ in range(rng.randint(1, 4))]
         if rng.random() < 0.7:
@@ -723,25 +781,25 @@ def rs_sequential(ctx, res):
 
 def run_restart(ctx, res: Result):
     from harness import detsched as ds
-    rng = ctx.rng("restart")
+    rng = stream(ctx, "restart")
     directed = [c for c in ctx.corpus() if c.get("kind") == "restart"] + RS_DIRECTED
     for case in directed:
         base = {k: case[k] for k in ("kind", "interval", "restart_on_exit", "children", "ev", "main")}
         if case.get("choices"):
             s, table = rs_run(base, ds.ReplayChooser(case["choices"]))
             rs_add(res, base, s, table, True)
-        for j in range(600 if ctx.thorough else 200):
+        for j in range(size(ctx, 200, 600)):
             tick = rng.choice([0.0, 0.3])
             s, table = rs_run(base, ds.RandomChooser(rng.randrange(1 << 30), switch_prob=0.4, tick_prob=tick))
             rs_add(res, base, s, table, tick > 0)
-        if ctx.thorough:
+        if deep(ctx):
             def once(ch, base=base):
                 s, table = rs_run(base, ch)
                 s._c18_table = table
                 return s
             for s in ds.explore(once, preemption_bound=2, max_runs=1500):
                 rs_add(res, base, s, s._c18_table, False)
-    for i in range(2500 if ctx.thorough else 600):
+    for i in range(size(ctx, 600, 2500)):
         case = rs_program(rng)
         for j in range(2):
             tick = rng.choice([0.0, 0.0, 0.2])
@@ -840,9 +898,9 @@ def sh_model_case(case, s, table):
 
 def run_shell(ctx, res: Result):
     from harness import detsched as ds
-    rng = ctx.rng("shell")
+    rng = stream(ctx, "shell")
     rows = []
-    for i in range(1500 if ctx.thorough else 400):
+    for i in range(size(ctx, 400, 1500)):
         case = sh_program(rng)
         s, table = sh_run(case, ds.RandomChooser(rng.randrange(1 << 30), switch_prob=0.4, tick_prob=rng.choice([0.0, 0.2])))
         res.evaluations += 1
